@@ -1302,6 +1302,7 @@ func (z *Decimal) SetMantExp(mant *Decimal, exp int) *Decimal {
 	}
 	z.Copy(mant)
 	if z.form != finite {
+		z.acc = Exact // Copy also copied mant's accuracy
 		return z
 	}
 	z.setExpAndRound(int64(z.exp)+clampExp(int64(exp)), 0)
